@@ -84,6 +84,7 @@ theorem equalArgs_symm : ∀ (as bs : List (E C)), equalArgs N as bs = equalArgs
       by_cases hn : b.kind.isNumeric
       · simp only [hn, if_true, equalX_symm a b]
       · simp only [hn]
+        have ih := equalX_symm a b
         cases a <;> cases b <;> simp_all [E.kind, BEq.comm]
     · simp [hk, Ne.symm hk]
 end
@@ -331,7 +332,8 @@ theorem soundArgs : ∀ (as bs : List (E C)), as.length = bs.length → equalArg
         · next s s' =>
           simp only [R.ofBool_eq_tt, beq_iff_eq] at h1
           exact ⟨.cons (.str h1) h2.1, by simp [okCArgs, E.kind, Kind.isNumeric, h2.2]⟩
-        · simp at h1
+        · have h3 := sound a b h1
+          exact ⟨.cons h3.1 h2.1, by simp [okCArgs, hn, h3.2, h2.2]⟩
 end
 
 end MpVerif.C18
@@ -401,9 +403,10 @@ theorem completeArgs : ∀ (as bs : List (E C)), SimList N as bs → okCArgs as 
     · next hn =>
       rw [hk] at hn
       simp only [hn]
+      have hc := fun (ok : okC a = true) => complete _ _ h ok
       cases h with
       | str hs => simp [hs]
-      | _ => simp [E.kind] at ho1
+      | _ => simp_all [E.kind, okC]
 end
 
 end MpVerif.C18
@@ -516,7 +519,10 @@ theorem okCArgs_okH : ∀ (as : List (E C)), okCArgs as = true → okHList as = 
     have h1 := h.1
     split at h1
     · exact okC_okH a h1
-    · cases a <;> simp_all [E.kind, okH]
+    · simp only [Bool.or_eq_true] at h1
+      cases h1 with
+      | inl hs => cases a <;> simp_all [E.kind, okH]
+      | inr ho => exact okC_okH a ho
 end
 
 /-! ### outcomes -/
@@ -608,80 +614,80 @@ theorem totalArgs : ∀ (as bs : List (E C)), okCArgs as = true → (equalArgs N
       · next hn => simp only [hn, if_true] at h1; exact total a b h1
       · next hn =>
         simp only [hn] at h1
-        cases a <;> cases b <;> simp_all [E.kind, R.isBool_ofBool]
+        have h1' : (a.kind == Kind.string) = true ∨ okC a = true := by
+          simpa only [Bool.or_eq_true, if_false, Bool.false_eq_true] using h1
+        cases h1' with
+        | inl hs => cases a <;> cases b <;> simp_all [E.kind, R.isBool_ofBool]
+        | inr ho =>
+          have ih := total a b ho
+          cases a <;> cases b <;> simp_all [E.kind, R.isBool_ofBool, okC]
 end
 
 mutual
-/-- if every call argument in the left operand is numeric or a string literal, `Equal` performs no
-null dereference, whatever the right operand -/
-theorem no_ub : ∀ (a b : E C), argsOk a = true → equalX N a b ≠ .ub
-  | .num _, b, _ => by cases b <;> simp [equalX, R.ofBool_ne_ub]
-  | .ref _ _, b, _ => by
+/-- `Equal` performs no null dereference -/
+theorem no_ub : ∀ (a b : E C), equalX N a b ≠ .ub
+  | .num _, b => by cases b <;> simp [equalX, R.ofBool_ne_ub]
+  | .ref _ _, b => by
     cases b <;> simp only [equalX, ne_eq, reduceCtorEq, not_false_eq_true]
     split <;> simp [R.ofBool_ne_ub]
-  | .un _ a, b, h => by
+  | .un _ a, b => by
     cases b <;> simp only [equalX, ne_eq, reduceCtorEq, not_false_eq_true]
     split
-    · exact no_ub a _ (by simpa only [argsOk] using h)
+    · exact no_ub a _
     · simp
-  | .bin _ l r, b, h => by
-    simp only [argsOk, Bool.and_eq_true] at h
+  | .bin _ l r, b => by
     cases b <;> simp only [equalX, ne_eq, reduceCtorEq, not_false_eq_true]
     split
-    · exact R.and_ne_ub (no_ub l _ h.1) (no_ub r _ h.2)
+    · exact R.and_ne_ub (no_ub l _) (no_ub r _)
     · simp
-  | .ite _ c t e, b, h => by
-    simp only [argsOk, Bool.and_eq_true] at h
-    cases b <;> simp only [equalX, ne_eq, reduceCtorEq, not_false_eq_true]
-    split
-    · split
-      · simp
-      · exact R.and_ne_ub (no_ub c _ h.1) (R.and_ne_ub (no_ub t _ h.2.1) (no_ub e _ h.2.2))
-    · simp
-  | .pl _ _ arg, b, h => by
-    cases b <;> simp only [equalX, ne_eq, reduceCtorEq, not_false_eq_true]
-    split
-    · simp
-    · split
-      · simp
-      · exact R.and_ne_ub R.ofBool_ne_ub (no_ub arg _ (by simpa only [argsOk] using h))
-  | .call _ as, b, h => by
-    cases b <;> simp only [equalX, ne_eq, reduceCtorEq, not_false_eq_true]
-    split
-    · simp
-    · exact no_ubArgs as _ (by simpa only [argsOk] using h)
-  | .iter _ as, b, h => by
+  | .ite _ c t e, b => by
     cases b <;> simp only [equalX, ne_eq, reduceCtorEq, not_false_eq_true]
     split
     · split
       · simp
-      · exact no_ubList as _ (by simpa only [argsOk] using h)
+      · exact R.and_ne_ub (no_ub c _) (R.and_ne_ub (no_ub t _) (no_ub e _))
     · simp
-  | .bool _, b, _ => by cases b <;> simp [equalX, R.ofBool_ne_ub]
-  | .str _, b, _ => by cases b <;> simp [equalX]
-theorem no_ubList : ∀ (as bs : List (E C)), argsOkList as = true → equalList N as bs ≠ .ub
-  | [], [], _ => by simp [equalList]
-  | [], _ :: _, _ => by simp [equalList]
-  | _ :: _, [], _ => by simp [equalList]
-  | a :: as, b :: bs, h => by
-    simp only [argsOkList, Bool.and_eq_true] at h
+  | .pl _ _ arg, b => by
+    cases b <;> simp only [equalX, ne_eq, reduceCtorEq, not_false_eq_true]
+    split
+    · simp
+    · split
+      · simp
+      · exact R.and_ne_ub R.ofBool_ne_ub (no_ub arg _)
+  | .call _ as, b => by
+    cases b <;> simp only [equalX, ne_eq, reduceCtorEq, not_false_eq_true]
+    split
+    · simp
+    · exact no_ubArgs as _
+  | .iter _ as, b => by
+    cases b <;> simp only [equalX, ne_eq, reduceCtorEq, not_false_eq_true]
+    split
+    · split
+      · simp
+      · exact no_ubList as _
+    · simp
+  | .bool _, b => by cases b <;> simp [equalX, R.ofBool_ne_ub]
+  | .str _, b => by cases b <;> simp [equalX]
+theorem no_ubList : ∀ (as bs : List (E C)), equalList N as bs ≠ .ub
+  | [], [] => by simp [equalList]
+  | [], _ :: _ => by simp [equalList]
+  | _ :: _, [] => by simp [equalList]
+  | a :: as, b :: bs => by
     simp only [equalList]
-    exact R.and_ne_ub (no_ub a b h.1) (no_ubList as bs h.2)
-theorem no_ubArgs : ∀ (as bs : List (E C)), argsOkArgs as = true → equalArgs N as bs ≠ .ub
-  | [], [], _ => by simp [equalArgs]
-  | [], _ :: _, _ => by simp [equalArgs]
-  | _ :: _, [], _ => by simp [equalArgs]
-  | a :: as, b :: bs, h => by
-    simp only [argsOkArgs, Bool.and_eq_true, Bool.or_eq_true] at h
+    exact R.and_ne_ub (no_ub a b) (no_ubList as bs)
+theorem no_ubArgs : ∀ (as bs : List (E C)), equalArgs N as bs ≠ .ub
+  | [], [] => by simp [equalArgs]
+  | [], _ :: _ => by simp [equalArgs]
+  | _ :: _, [] => by simp [equalArgs]
+  | a :: as, b :: bs => by
     simp only [equalArgs]
-    refine R.and_ne_ub ?_ (no_ubArgs as bs h.2)
+    refine R.and_ne_ub ?_ (no_ubArgs as bs)
+    have ih := no_ub a b
     split
     · simp
-    · next hk =>
-      split
-      · exact no_ub a b h.1.2
-      · next hn =>
-        cases a <;> cases b <;> simp_all [E.kind, R.ofBool_ne_ub]
+    · split
+      · exact ih
+      · cases a <;> cases b <;> simp_all [E.kind, R.ofBool_ne_ub]
 end
 
 end MpVerif.C18
